@@ -74,6 +74,9 @@ if fid == 'F-46':
     g1 = ' '.join(set_value(source=parse(w['doc']), npath=w['path'][0], value=w['value']).split())
     g2 = ' '.join(set_value(source=parse(w['second_doc']), npath=w['path'][0], value=w['value']).split())
     out(g1 != w['expected'] or g2 != w['second_expected'], 'got %r / %r' % (g1, g2))
+if fid == 'F-63':
+    g1 = ' '.join(set_value(source=parse(w['doc']), npath=w['path'][0], value=w['value']).split())
+    out(g1 != w['expected'], 'got %r' % g1)
 if fid == 'F-49' and prop == 'C20':
     try: parse(w['input']).rebuild(); out(False, 'returns')
     except ValueError: out(False, 'ValueError')
